@@ -117,6 +117,7 @@ func verifHarness_C11_Accounting() {
 		if count == 0 {
 			rt.Cover("acct:resume-unbalanced")
 			rt.Assert(rt.ExpectPanic(func() { c.Resume() }), "Resume without Suspend is refused")
+			rt.AssertUnlocked(&c.lock, "the clock's lock is released after the refused Resume")
 			rt.AssertNoLocksHeld("clock lock released after the refused Resume")
 			return
 		}
@@ -128,6 +129,7 @@ func verifHarness_C11_Accounting() {
 		}
 		rt.Assert(c.suspensionCount == count-1, "Resume decrements the nesting count")
 	}
+	rt.AssertUnlocked(&c.lock, "the clock's lock is released after every call")
 	rt.AssertNoLocksHeld("clock lock released")
 	s2 := rt.NanosOfTime(c.unsuspensionStart)
 	running2 := rt.IteI64(c.suspensionCount == 0, t-s2, 0)
@@ -247,5 +249,6 @@ func verifHarness_C11_ContextWithTimeout() {
 	if finished {
 		rt.WaitAll()
 	}
+	rt.AssertUnlocked(&c.lock, "the clock's lock is released after every event")
 	rt.AssertNoLocksHeld("clock lock released")
 }
